@@ -1520,8 +1520,23 @@ func (s *BgpServer) processRTCMembership(peer *peer, path *table.Path) {
 			return
 		}
 		filtered = s.processOutgoingPaths(peer, filtered, nil)
-		peer.updateRoutes(filtered...)
-		sendfsmOutgoingMsg(peer, filtered)
+		// no more than send-max paths of a destination (see getBestFromLocalCallbackLocked)
+		out := filtered[:0:0]
+		added := make(map[string]int)
+		for _, p := range filtered {
+			f := p.GetFamily()
+			if peer.isAddPathSendEnabled(f) && !p.IsWithdraw && !peer.hasPathAlreadyBeenSent(p) {
+				prefix := p.GetPrefix()
+				if int(peer.getRoutesCount(f, prefix))+added[prefix] >= int(peer.getAddPathSendMax(f)) {
+					peer.setPathSendMaxFiltered(p)
+					continue
+				}
+				added[prefix]++
+			}
+			out = append(out, p)
+		}
+		peer.updateRoutes(out...)
+		sendfsmOutgoingMsg(peer, out)
 	})
 }
 
@@ -1542,7 +1557,7 @@ func peerNonRTCFamilies(peer *peer) []bgp.Family {
 // back to a full RIB scan because all VPN families are in scope.
 func (s *BgpServer) rtcVPNCandidates(peer *peer, isWithdraw bool, rt bgp.ExtendedCommunityInterface, fs []bgp.Family, fn func([]*table.Path, []*table.Path)) {
 	if rt != nil {
-		raw := s.globalRib.GetPathsByRT(rt, fs)
+		raw := s.withAllPathsForAddPath(peer, s.globalRib.GetPathsByRT(rt, fs))
 		paths := make([]*table.Path, 0, len(raw))
 		for _, p := range raw {
 			if isWithdraw {
@@ -1557,6 +1572,47 @@ func (s *BgpServer) rtcVPNCandidates(peer *peer, isWithdraw bool, rt bgp.Extende
 	// (every path of a destination up to send-max when it negotiated
 	// ADD-PATH, not only the best one) is what a table transfer computes.
 	s.getBestFromLocalCallbackLocked(peer, fs, false, fn)
+}
+
+// withAllPathsForAddPath completes a candidate list for a peer that is sent
+// several paths per destination (ADD-PATH): the route target index holds the
+// best path of a destination whose paths were learned without path
+// identifiers, but such a peer is concerned by the other paths of that
+// destination as well.
+func (s *BgpServer) withAllPathsForAddPath(peer *peer, paths []*table.Path) []*table.Path {
+	expand := false
+	for _, p := range paths {
+		if peer.isAddPathSendEnabled(p.GetFamily()) {
+			expand = true
+			break
+		}
+	}
+	if !expand {
+		return paths
+	}
+	seen := make(map[*table.Path]struct{}, len(paths))
+	out := make([]*table.Path, 0, len(paths))
+	add := func(p *table.Path) {
+		if _, ok := seen[p]; !ok {
+			seen[p] = struct{}{}
+			out = append(out, p)
+		}
+	}
+	for _, p := range paths {
+		if !peer.isAddPathSendEnabled(p.GetFamily()) {
+			add(p)
+			continue
+		}
+		d := s.globalRib.GetDestination(p)
+		if d == nil {
+			add(p)
+			continue
+		}
+		for _, q := range d.GetKnownPathList(peer.TableID(), peer.AS()) {
+			add(q)
+		}
+	}
+	return out
 }
 
 func dstsToPaths(id string, as uint32, dsts []*table.Update) ([]*table.Path, []*table.Path, [][]*table.Path, []*table.Path, []*table.Path) {
